@@ -123,6 +123,9 @@ def e2e_cases(ctx):
         lists = [l for l in lists if len(l) <= 2] + rng.sample([l for l in lists if len(l) == 3], 40)
     for la in LOOKALIKES:
         lists += [[la], [la, "2025-03-26"], ["2023-01-01", la]]
+    # a client that offers nothing: whatever becomes of that call, it does not end agreed on a version
+    for p in (None, "2025-06-18", "nonsense"):
+        yield {"supported": [], "preferred": p}
     for l in lists:
         prefs = [None, l[-1], "2024-11-05", "nonsense"]
         for p in prefs:
@@ -462,7 +465,9 @@ def run(ctx):
                 ctx.violation("initialized_missing", "handshake succeeded without notifications/initialized", case)
             shape = "ok:" + str(val)
         else:
-            if not isinstance(val, VersionMismatchError):
+            if not case["supported"] and not written:
+                pass      # (an empty offer refused before anything was sent: no handshake took place, any refusal will do)
+            elif not isinstance(val, VersionMismatchError):
                 ctx.violation("handshake_wrong_failure", f"handshake failed with {val!r} instead of a version mismatch", case)
             if any(w.get("method") == "notifications/initialized" for w in written):
                 ctx.violation("initialized_after_mismatch", "notifications/initialized sent although the handshake failed", case)
